@@ -17,7 +17,7 @@ def _amount_is_param(name):
     return chk
 
 
-@rule("C01.1", ["C01", "C14"], ["E3", "E4"], "TX segment accounting is conserved on every path",
+@rule("C01.1", ["C01", "C14", "C10", "C08", "C02"], ["E3", "E4"], "TX segment accounting is conserved on every path",
       "In every method of Segments: a fresh element pushed on `segments` <=> `offset += x` and `len_bytes += x` (x = the element's payload_size source); "
       "an element removed from the back and not pushed back <=> `len_bytes -= payload_size` and `offset -= payload_size`; an element removed from the front "
       "(drain item / pop_front) <=> `len_bytes -= payload_size`, `snd_una += 1` and its payload_size accumulated into the local that feeds `removed_offset +=`; checked per loop iteration and at every return.")
@@ -92,6 +92,21 @@ def c01_1(R):
 
 
         n = container_accounting(R, b, "Segments.segments", counters, (lambda tags, hc=bool(count_locals): balance(tags, hc)), "tx-accounting:" + b.name.split("::")[-1], local_acc=local_acc)
+        # the accumulated bytes reach removed_offset: the `removed_offset += L` comes AFTER the last place that adds to L (a front removal in a later
+        # clean-up loop would otherwise be reported as acked_bytes - the ring is cut by it - without moving removed_offset: every later payload offset shifts)
+        if feed_locals:
+            ups = [s for s in b.stmts() if (lambda fu: fu and fu.field == "Segments.removed_offset" and fu.op == "+=")(field_update(b, s))]
+            accs = [s for s in b.stmts() if (lambda lu: lu and lu[0] in feed_locals and lu[1] == "+=")(local_update(b, s))]
+            late = [a for a in accs for u in ups if point_reaches(b, u, a)]
+            from utpsa.flow import must_pass_blocks
+            skipped = [a for a in accs if not must_pass_blocks(b, b.return_blocks(), {u.bb for u in ups}, start=a.bb)[0] and not any(u.bb == a.bb and u.idx > a.idx for u in ups)]
+            if ups and not late and not skipped:
+                R.ok("removed-bytes-reach-removed_offset", b.name, "removed_offset += (all %d accumulations), after the last of them" % len(accs))
+            else:
+                R.fail([b.name, "removed_offset-update", "before-a-later-accumulation" if late else "skippable-after-accumulation"],
+                       "%s: bytes of a segment removed from the front are added to the acknowledged total %s the update of removed_offset: acked_bytes (by which the ring is cut) and removed_offset "
+                       "(from which every later segment's position in the ring is computed) disagree from then on - wrong bytes are sent or the buffer-bounds 'bug:' errors fire"
+                       % (b.name.split("::")[-1], "after" if late else "on a path that skips"), where=(late or skipped or ups or [b])[0].where() if (late or skipped or ups) else b.where(), instance="removed-bytes-reach-removed_offset")
         total += n
         if n:
             touched += 1
@@ -243,7 +258,7 @@ def c01_3(R):
     R.floor("OnAckResult aggregates", nagg, 1)
 
 
-@rule("C01.4", ["C01", "C04", "C10"], ["E3"], "RX reassembly / user-queue accounting is conserved",
+@rule("C01.4", ["C01", "C04", "C10", "C07", "C02"], ["E3"], "RX reassembly / user-queue accounting is conserved",
       "OutOfOrderQueue: a slot write (`*slot = msg`, slot from data.get_mut) <=> `len += 1` and `len_bytes += msg.len_bytes()`; data.pop_front() => on every path either push_front of the element "
       "or `filled_front -= 1`, `len -= 1`, `len_bytes -=` and push_back(default) (slot count constant). MsgQueue: queue.push_back <=> `len_bytes +=`, pop_front <=> `len_bytes -=`.")
 def c01_4(R):
